@@ -407,6 +407,25 @@ def r05_4(ctx, v, g, helpers):
     ctx.check(bad is None, "R05.4", g.where(region_loop), "every region is searched and all nodes found under it (their ids) are added to the node list", key_of(g, f"region-flow:{bad[1] if bad else ''}"), paths=len(paths), **({"path": bad[0].show(), "why": bad[1]} if bad else {}))
     # the search is handed this region's own contig / start / end and the node list of that contig
     region_triple(ctx, g, region_loop, call)
+    # the regions handed over are the user's regions themselves
+    rc = getattr(v, "regions_call", None)
+    if rc is not None and rc.value.args:
+        a0 = rc.value.args[0]
+        if not (isinstance(a0, ast.Name) and a0.id in v.run.params):
+            raise AnalysisError("R05.4", v.run.where(rc), f"the regions are pre-processed (`{norm(a0)[:60]}`) before the node lookup: outside the rules (every requested region must still be covered)")
+    # a per-contig node list that is kept for later regions must be a real list: a one-shot iterator (filter / map /
+    # generator) is exhausted by the first region that scans it
+    lazy = []
+    for st in walk_stmts(region_loop.body):
+        if isinstance(st, ast.Assign) and isinstance(st.targets[0], ast.Subscript) and isinstance(st.value, (ast.Call, ast.GeneratorExp, ast.Name)):
+            val = st.value
+            if isinstance(val, ast.Name):
+                ds = [x.value for x in walk_stmts(region_loop.body) if isinstance(x, ast.Assign) and norm(x.targets[0]) == val.id]
+                val = ds[-1] if ds else val
+            if isinstance(val, ast.GeneratorExp) or (isinstance(val, ast.Call) and norm(val.func) in ("filter", "map", "zip", "iter", "reversed", "itertools.chain", "itertools.islice")):
+                lazy.append((st, val))
+    for st, val in lazy:
+        ctx.violated("R05.4", g.where(st), f"the node list cached for a contig is a one-shot iterator (`{norm(val)[:50]}`): the first region of the contig consumes it, later regions of the same contig find nothing", key_of(g, f"cached-iterator:{norm(val)[:60]}"))
     # ... and a node list looked up (or built) in this very iteration, not one left over from the previous region
     if len(call.args) > 1 and isinstance(call.args[1], ast.Name):
         lv = call.args[1].id
